@@ -12,11 +12,14 @@
   ONE definition, polymorphic in the scalar type `α` (Mathlib-free):
     * run on `Float` by the driver (`Driver/TrsDrv.lean`), where the reduction `Num.sum` is
       instantiated by left-to-right / right-to-left / nudged summation (DESIGN 2.1 comparator);
-    * instantiated at `ℝ` (`sum := sumTo`, `sqrt := Real.sqrt`) in `Proofs/TrsLinear.lean`;
+    * instantiated at an ordered field with a square root (`sum := sumTo`; `Real.sqrt` over `ℝ`) in
+      `Proofs/TrsLinear.lean`;
     * `dWithinBounds` is used with *uninterpreted* `+`/`-` over an arbitrary linear order in
       `Proofs/TrsBox.lean` (any rounding).
 
-  Vectors are total functions `Nat → α`; only indices `< n` are meaningful.
+  Inputs are total functions `Nat → α` (only indices `< n` are meaningful); every COMPUTED vector is
+  materialised in an array (`vmk`) and read with `vget` — compiled Lean re-evaluates a closure-valued
+  `let` at every call, which made function-valued iterates exponentially slow.
 -/
 namespace Dfols
 namespace TrsLin
@@ -30,19 +33,20 @@ structure Num (α : Type) where
   sq : α → α
   /-- trust_region.py:86 `ZERO_THRESH = 1e-14` -/
   zt : α
-  /-- materialise the first `n` components of a vector (the identity mathematically: `fun _ f => f` in the
-      proofs, an array-backed copy in the driver so that a result is computed once, not once per index) -/
-  store : Nat → (Nat → α) → (Nat → α) := fun _ f => f
-
-/-- a computed vector (wrapper: a definition returning `Vec` is evaluated once by the compiled code,
-    whereas one returning `Nat → α` is re-run for every index) -/
-structure Vec (α : Type) where
-  f : Nat → α
 
 /-- left-to-right summation starting from 0: the reference reduction. -/
 def sumTo {α : Type} [OfNat α 0] [Add α] : Nat → (Nat → α) → α
   | 0, _ => 0
   | k + 1, f => sumTo k f + f k
+
+/-- materialise the first `n` components of a vector -/
+def vmk {α : Type} (n : Nat) (f : Nat → α) : Array α := Array.ofFn (n := n) fun i => f i.val
+
+/-- read a component (0 outside the array) -/
+def vget {α : Type} [OfNat α 0] (v : Array α) (i : Nat) : α := v.getD i 0
+
+theorem vget_vmk {α : Type} [OfNat α 0] (n : Nat) (f : Nat → α) (i : Nat) (hi : i < n) : vget (vmk n f) i = f i := by
+  simp [vget, vmk, Array.getD, hi]
 
 section kernel
 variable {α : Type} [OfNat α 0] [Add α] [Sub α] [Mul α] [Div α] [Neg α]
@@ -70,10 +74,13 @@ def ballStep (N : Num α) (n : Nat) (x0 g : Nat → α) (Delta : α) : α :=
 
 /-- state of the active-set loop of `trsbox_linear` -/
 structure LinState (α : Type) where
-  x : Nat → α
-  dirn : Nat → α
+  x : Array α
+  dirn : Array α
   /-- `cons_dirns` -/
   cons : List Nat
+
+def LinState.xf (st : LinState α) : Nat → α := vget st.x
+def LinState.df (st : LinState α) : Nat → α := vget st.dirn
 
 /-- result of the scan `for j in range(n)` at lines 658-670 -/
 inductive Hit where
@@ -93,26 +100,30 @@ def scan (cons : List Nat) (xnew a b : Nat → α) : List Nat → Hit
     else scan cons xnew a b js
 
 /-- lines 675-680: go along `dirn` until coordinate `j` sits on `bd`, fix it there. -/
-def fixAt (st : LinState α) (j : Nat) (bd : α) : LinState α :=
-  let alphaCon := (bd - st.x j) / st.dirn j               -- 677
-  { x := fun i => if i = j then bd else st.x i + alphaCon * st.dirn i   -- 678-679
-    dirn := fun i => if i = j then 0 else st.dirn i       -- 680
+def fixAt (n : Nat) (st : LinState α) (j : Nat) (bd : α) : LinState α :=
+  { x := vmk n fun i => if i = j then bd else st.xf i + (bd - st.xf j) / st.df j * st.df i   -- 677-679
+    dirn := vmk n fun i => if i = j then 0 else st.df i   -- 680
     cons := st.cons ++ [j] }                              -- 676
+
+/-- `x + alpha * d` materialised (`noinline`: the scalar is evaluated once, before the call) -/
+@[noinline] def axpy (n : Nat) (x : Nat → α) (alpha : α) (d : Nat → α) : Array α := vmk n fun i => x i + alpha * d i
+
+/-- the trial point of line 653 -/
+def trial (N : Num α) (n : Nat) (Delta : α) (st : LinState α) : Array α :=
+  axpy n st.xf (ballStep N n st.xf st.df Delta) st.df               -- 652-653
 
 /-- one pass of the body of `for i in range(n)` (lines 650-680): either the routine returns
     (`inl x`) or one more coordinate has been fixed (`inr st'`). -/
-def linStep (N : Num α) (n : Nat) (a b : Nat → α) (Delta : α) (st : LinState α) : Sum (Nat → α) (LinState α) :=
-  if N.sqrt (dot N n st.dirn st.dirn) < N.zt then .inl st.x            -- 650-651
+def linStep (N : Num α) (n : Nat) (a b : Nat → α) (Delta : α) (st : LinState α) : Sum (Array α) (LinState α) :=
+  if N.sqrt (dot N n st.df st.df) < N.zt then .inl st.x                -- 650-651
   else
-    let alphaUnc := ballStep N n st.x st.dirn Delta                   -- 652
-    let xnew : Nat → α := fun i => st.x i + alphaUnc * st.dirn i      -- 653
-    match scan st.cons xnew a b (List.range n) with
-    | .none => .inl xnew                                              -- 672-673
-    | .lower j => .inr (fixAt st j (a j))
-    | .upper j => .inr (fixAt st j (b j))
+    match scan st.cons (vget (trial N n Delta st)) a b (List.range n) with
+    | .none => .inl (trial N n Delta st)                               -- 672-673
+    | .lower j => .inr (fixAt n st j (a j))
+    | .upper j => .inr (fixAt n st j (b j))
 
 /-- lines 649-681 with the `for i in range(n)` counter as fuel. -/
-def linLoop (N : Num α) (n : Nat) (a b : Nat → α) (Delta : α) : Nat → LinState α → Nat → α
+def linLoop (N : Num α) (n : Nat) (a b : Nat → α) (Delta : α) : Nat → LinState α → Array α
   | 0, st => st.x                                                     -- 681
   | f + 1, st =>
     match linStep N n a b Delta st with
@@ -131,36 +142,30 @@ def initCons (N : Num α) (n : Nat) (g : Nat → α) : List Nat :=
   (List.range n).filter fun i => decide (absv (-(g i)) < N.zt)
 
 def initState (N : Num α) (n : Nat) (g : Nat → α) : LinState α :=
-  { x := fun _ => 0, dirn := initDirn N g, cons := initCons N n g }
+  { x := vmk n fun _ => 0, dirn := vmk n (initDirn N g), cons := initCons N n g }
 
-/-- trust_region.py:625-681 (Python branch, `use_fortran = False`). -/
-def trsboxLinearV (N : Num α) (n : Nat) (g aIn bIn : Nat → α) (Delta : α) : Vec α :=
-  ⟨N.store n (linLoop N n (widenLo N aIn) (widenHi N bIn) Delta n (initState N n g))⟩
+/-- trust_region.py:625-681 (Python branch, `use_fortran = False`); read the result with `vget`. -/
+def trsboxLinear (N : Num α) (n : Nat) (g aIn bIn : Nat → α) (Delta : α) : Array α :=
+  linLoop N n (widenLo N aIn) (widenHi N bIn) Delta n (initState N n g)
 
-def trsboxLinear (N : Num α) (n : Nat) (g aIn bIn : Nat → α) (Delta : α) : Nat → α :=
-  (trsboxLinearV N n g aIn bIn Delta).f
-
-/-- the step `s = x - xbase` of `trsbox_geometry`: the two candidates (lines 712-713) and the choice (714-717) -/
-def geomStepV (N : Num α) (n : Nat) (xbase : Nat → α) (c : α) (g lower upper : Nat → α) (Delta : α) : Vec α :=
-  let smin := trsboxLinearV N n g (fun i => lower i - xbase i) (fun i => upper i - xbase i) Delta               -- 712
-  let smax := trsboxLinearV N n (fun i => -(g i)) (fun i => lower i - xbase i) (fun i => upper i - xbase i) Delta   -- 713
-  if absv (c + dot N n g smax.f) ≤ absv (c + dot N n g smin.f) then smin else smax                            -- 714
-
-def geomSmin (N : Num α) (n : Nat) (xbase g lower upper : Nat → α) (Delta : α) : Nat → α :=
+/-- the two candidates of `trsbox_geometry` (lines 712-713) -/
+def geomSmin (N : Num α) (n : Nat) (xbase g lower upper : Nat → α) (Delta : α) : Array α :=
   trsboxLinear N n g (fun i => lower i - xbase i) (fun i => upper i - xbase i) Delta
-def geomSmax (N : Num α) (n : Nat) (xbase g lower upper : Nat → α) (Delta : α) : Nat → α :=
+def geomSmax (N : Num α) (n : Nat) (xbase g lower upper : Nat → α) (Delta : α) : Array α :=
   trsboxLinear N n (fun i => -(g i)) (fun i => lower i - xbase i) (fun i => upper i - xbase i) Delta
 
-def geomStep (N : Num α) (n : Nat) (xbase : Nat → α) (c : α) (g lower upper : Nat → α) (Delta : α) : Nat → α :=
-  (geomStepV N n xbase c g lower upper Delta).f
+/-- the step `s = x - xbase` chosen at lines 714-717 -/
+def geomStep (N : Num α) (n : Nat) (xbase : Nat → α) (c : α) (g lower upper : Nat → α) (Delta : α) : Array α :=
+  if absv (c + dot N n g (vget (geomSmax N n xbase g lower upper Delta))) ≤
+     absv (c + dot N n g (vget (geomSmin N n xbase g lower upper Delta)))            -- 714
+  then geomSmin N n xbase g lower upper Delta else geomSmax N n xbase g lower upper Delta
+
+/-- `xbase + s` materialised (`noinline`: `s` is evaluated once, before the call) -/
+@[noinline] def addStep (n : Nat) (xbase : Nat → α) (s : Array α) : Array α := vmk n fun i => xbase i + vget s i
 
 /-- trust_region.py:700-717. -/
-def trsboxGeometryV (N : Num α) (n : Nat) (xbase : Nat → α) (c : α) (g lower upper : Nat → α) (Delta : α) : Vec α :=
-  let s := geomStepV N n xbase c g lower upper Delta
-  ⟨N.store n fun i => xbase i + s.f i⟩                                                                        -- 715 / 717
-
-def trsboxGeometry (N : Num α) (n : Nat) (xbase : Nat → α) (c : α) (g lower upper : Nat → α) (Delta : α) : Nat → α :=
-  (trsboxGeometryV N n xbase c g lower upper Delta).f
+def trsboxGeometry (N : Num α) (n : Nat) (xbase : Nat → α) (c : α) (g lower upper : Nat → α) (Delta : α) : Array α :=
+  addStep n xbase (geomStep N n xbase c g lower upper Delta)                         -- 715 / 717
 
 end kernel
 
